@@ -69,17 +69,34 @@ def case_pairs(ctx):
     pre = pos(x, lam, k)
     pairs = [("cn2_to_r0", "r0_to_cn2"), ("r0_to_cn2", "cn2_to_r0"), ("r0_to_seeing", "seeing_to_r0"),
              ("seeing_to_r0", "r0_to_seeing"), ("cn2_to_seeing", "seeing_to_cn2"), ("seeing_to_cn2", "cn2_to_seeing")]
+    ctx.fallback = lambda m: replay_pair("cn2_to_r0", "r0_to_cn2", 1e-17, 5e-7)
+
+    def explored(fn):
+        """every path of the converters (a guard on the VALUE of an argument forks)"""
+        def go():
+            with npx.symbolic(ac):
+                return fn()
+        paths, ex = core.run_paths(go, pre, max_paths=32)
+        ctx.explored(ex, len(paths))
+        return paths
+    for f, g in pairs:
+        ctx.encoded(getattr(ac, f), getattr(ac, g))
+        rp = lambda m, f=f, g=g: replay_pair(f, g, m(x), m(lam))
+        for pi, pth in enumerate(explored(lambda f=f, g=g: getattr(ac, g)(getattr(ac, f)(x, lam), lam))):
+            tag = "" if pi == 0 else " [path%d]" % pi
+            if pth.exc is not None:
+                ctx.prove("%s(%s(x,lam),lam) raises %s%s" % (g, f, type(pth.exc).__name__, tag), pre + pth.pc, z3.BoolVal(False), replay=rp, witness_terms=dict(x=x, lam=lam), axioms=False)
+                continue
+            ctx.prove("%s(%s(x,lam),lam)=x%s" % (g, f, tag), pre + pth.pc, all_eq(pth.out, x), replay=rp, witness_terms=dict(x=x, lam=lam))
+    # default wavelength is the same for both members of a pair
+    for f, g in pairs:
+        rp = lambda m, f=f, g=g: replay_pair(f, g, m(x), 500e-9)
+        for pi, pth in enumerate(explored(lambda f=f, g=g: getattr(ac, g)(getattr(ac, f)(x)))):
+            tag = "" if pi == 0 else " [path%d]" % pi
+            if pth.exc is not None:
+                continue
+            ctx.prove("%s(%s(x))=x at the default wavelength%s" % (g, f, tag), pre + pth.pc, all_eq(pth.out, x), replay=rp, witness_terms=dict(x=x))
     with npx.symbolic(ac):
-        for f, g in pairs:
-            ctx.encoded(getattr(ac, f), getattr(ac, g))
-            y = getattr(ac, g)(getattr(ac, f)(x, lam), lam)
-            ctx.prove("%s(%s(x,lam),lam)=x" % (g, f), pre, all_eq(y, x),
-                      replay=lambda m, f=f, g=g: replay_pair(f, g, m(x), m(lam)), witness_terms=dict(x=x, lam=lam))
-        # default wavelength is the same for both members of a pair
-        for f, g in pairs:
-            y = getattr(ac, g)(getattr(ac, f)(x))
-            ctx.prove("%s(%s(x))=x at the default wavelength" % (g, f), pre, all_eq(y, x),
-                      replay=lambda m, f=f, g=g: replay_pair(f, g, m(x), 500e-9), witness_terms=dict(x=x))
         # composites equal the composition of the elementary converters
         ctx.prove("cn2_to_seeing = r0_to_seeing o cn2_to_r0", pre,
                   all_eq(ac.cn2_to_seeing(x, lam), ac.r0_to_seeing(ac.cn2_to_r0(x, lam), lam)),
